@@ -23,6 +23,7 @@
 package main
 
 import (
+	"encoding/base64"
 	"encoding/binary"
 	"encoding/json"
 	"flag"
@@ -130,6 +131,47 @@ func rClaim(c pcTypes.MsgClaim) string {
 
 func rSign(a sdk.Address, i nodesTypes.ValidatorSigningInfo) string {
 	return fmt.Sprintf("%s:%d:%d:%d:%d:%d", a, i.StartHeight, i.Index, i.JailedUntil.UnixNano(), i.MissedBlocksCounter, i.JailedBlocksCounter)
+}
+
+// generic JSON values of the exported document
+func jstr(v interface{}) string {
+	if s, ok := v.(string); ok {
+		return s
+	}
+	return ""
+}
+func jnum(v interface{}) string {
+	switch x := v.(type) {
+	case string:
+		return x
+	case float64:
+		return fmt.Sprintf("%d", int64(x))
+	case nil:
+		return "0"
+	}
+	return fmt.Sprint(v)
+}
+func jbool(v interface{}) string {
+	if b, ok := v.(bool); ok && b {
+		return "1"
+	}
+	return "0"
+}
+func jstrs(v interface{}) []string {
+	var out []string
+	if xs, ok := v.([]interface{}); ok {
+		for _, x := range xs {
+			out = append(out, jstr(x))
+		}
+	}
+	return out
+}
+func jtime(v interface{}) int64 {
+	t, err := time.Parse(time.RFC3339Nano, jstr(v))
+	if err != nil {
+		return -1
+	}
+	return ns(t)
 }
 
 func joinSorted(xs []string) string {
@@ -313,8 +355,22 @@ func exportWords(gs app.GenesisState) []string {
 	var ng nodesTypes.GenesisState
 	nodesTypes.ModuleCdc.MustUnmarshalJSON(gs["pos"], &ng)
 	var vs, pp, si []string
-	for _, v := range ng.Validators {
-		vs = append(vs, rNode(v))
+	// node, application and claim records are read from the JSON text itself (generic decoder), not
+	// through the modules' own UnmarshalJSON — that decode path is what InitGenesis uses and is judged
+	// by the cmp lines
+	var rawPos struct {
+		Validators []map[string]interface{} `json:"validators"`
+	}
+	must(json.Unmarshal(gs["pos"], &rawPos))
+	for _, v := range rawPos.Validators {
+		var ds []string
+		if m, ok := v["reward_delegators"].(map[string]interface{}); ok {
+			for _, k := range chain.SortedKeys(m) {
+				ds = append(ds, fmt.Sprintf("%s=%s", k, jnum(m[k])))
+			}
+		}
+		vs = append(vs, fmt.Sprintf("%s:%s:%s:%s:%d:%s:%s:%s:%s", jstr(v["address"]), jnum(v["status"]), jbool(v["jailed"]), jnum(v["tokens"]), jtime(v["unstaking_time"]),
+			orDash(jstr(v["output_address"])), orDash(strings.Join(jstrs(v["chains"]), "+")), orDash(strings.Join(ds, "+")), esc(jstr(v["service_url"]))))
 	}
 	for _, p := range ng.PrevStateValidatorPowers {
 		pp = append(pp, fmt.Sprintf("%s:%d", p.Address, p.Power))
@@ -332,15 +388,28 @@ func exportWords(gs app.GenesisState) []string {
 	var apg appsTypes.GenesisState
 	appsTypes.ModuleCdc.MustUnmarshalJSON(gs["application"], &apg)
 	var aps []string
-	for _, a := range apg.Applications {
-		aps = append(aps, rApp(a))
+	var rawApp struct {
+		Applications []map[string]interface{} `json:"applications"`
 	}
+	must(json.Unmarshal(gs["application"], &rawApp))
+	for _, a := range rawApp.Applications {
+		aps = append(aps, fmt.Sprintf("%s:%s:%s:%s:%s:%s:%d:%s", jstr(a["address"]), jstr(a["public_key"]), jnum(a["status"]), jbool(a["jailed"]), jnum(a["staked_tokens"]),
+			jnum(a["max_relays"]), jtime(a["unstaking_time"]), orDash(strings.Join(jstrs(a["chains"]), "+"))))
+	}
+	_ = apg
 	out = append(out, "x-apps "+joinSorted(aps))
-	var pg pcTypes.GenesisState
-	pcTypes.ModuleCdc.MustUnmarshalJSON(gs["pocketcore"], &pg)
 	var cs []string
-	for _, c := range pg.Claims {
-		cs = append(cs, rClaim(c))
+	var rawPc struct {
+		Claims []map[string]interface{} `json:"claims"`
+	}
+	must(json.Unmarshal(gs["pocketcore"], &rawPc))
+	for _, c := range rawPc.Claims {
+		h, _ := c["header"].(map[string]interface{})
+		mr, _ := c["merkle_root"].(map[string]interface{})
+		rg, _ := mr["range"].(map[string]interface{})
+		root, _ := base64.StdEncoding.DecodeString(jstr(mr["merkleHash"]))
+		cs = append(cs, fmt.Sprintf("%s:%s:%s:%s:%x:%s:%s:%s:%s", jstr(c["from_address"]), jstr(h["app_public_key"]), jstr(h["chain"]), jnum(h["session_height"]),
+			root, jnum(rg["upper"]), jnum(c["total_proofs"]), jnum(c["evidence_type"]), jnum(c["expiration_height"])))
 	}
 	out = append(out, "x-claims "+joinSorted(cs))
 	var gg govTypes.GenesisState
@@ -412,6 +481,12 @@ func runExport(hseed uint64, blocks int, dir string, flavour int) {
 		g.Apps.Params.UnstakingTime = time.Hour
 		g.Nodes.Params.UnstakingTime = 2 * time.Hour
 		g.Apps.Params.BaseRelaysPerPOKT = 10000000 // allowances large enough for the claimed proofs (over-service check)
+		g.Nodes.Params.SignedBlocksWindow = 10 // downtime jailing within a history: jailed once > 4 of the last 10 blocks were missed
+		g.Nodes.Params.MinSignedPerWindow = sdk.NewDecWithPrec(6, 1)
+		// small slash fractions: a jailed validator stays above the minimum stake (otherwise it is force-unstaked
+		// and removed in the same block and no history ever ends with a jailed node)
+		g.Nodes.Params.SlashFractionDowntime = sdk.NewDecWithPrec(1, 6)
+		g.Nodes.Params.SlashFractionDoubleSign = sdk.NewDecWithPrec(1, 5)
 		g.Nodes.Params.SessionBlockFrequency = 4 // sessions of 4 blocks: claims of ended sessions are valid within a history
 	}
 	g := chain.BuildGenesis(o)
@@ -469,6 +544,25 @@ func runExport(hseed uint64, blocks int, dir string, flavour int) {
 				ap := w.Apps[r.Intn(len(w.Apps))]
 				blk.Txs = append(blk.Txs, chain.SignTx(w.ChainID, nd, chainx.MsgClaim(nd, ap, sh, int64(5+r.Intn(20)), byte(r.Intn(250))), fee, h.entropy(), ""))
 				descs = append(descs, fmt.Sprintf("claim %s@%d", nd.Addr, sh))
+			}
+		}
+		if flavour >= 1 {
+			// a lazy validator (misses 3 votes of 4) so that histories regularly end with a jailed node, and in
+			// flavour 2 a double-sign evidence against another one
+			lazy := w.Vals[2]
+			for i := range blk.Votes {
+				if sdk.Address(blk.Votes[i].Validator.Address).Equals(lazy.Addr) {
+					blk.Votes[i].SignedLastBlock = r.Chance(1, 4)
+				}
+			}
+			if flavour == 1 && b == 2 {
+				// the lazy validator begins unstaking early: it is unstaking AND jailed at the export height
+				blk.Txs = append(blk.Txs, chain.SignTx(w.ChainID, lazy, chain.MsgNodeUnstake(lazy.Addr, lazy.Addr), fee, h.entropy(), ""))
+				descs = append(descs, "nodeunstake-lazy")
+			}
+			if flavour == 2 && b == blocks/2 && n.Height > 2 {
+				blk.Evidence = append(blk.Evidence, abci.Evidence{Type: "duplicate/vote", Validator: abci.Validator{Address: w.Vals[1].Addr, Power: 15000}, Height: n.Height, Time: tm, TotalVotingPower: 45000})
+				descs = append(descs, "evidence "+w.Vals[1].Addr.String())
 			}
 		}
 		h.s.Begin(blk)
@@ -658,8 +752,8 @@ func main() {
 		hs := r.U64() % 1000000
 		fl := []int{0, 3, 4, 2, 3, 1, 3, 4}[i%8]
 		bl := 3 + r.Intn(*blocks)
-		if fl == 1 {
-			bl = 26 + r.Intn(8) // past a session boundary: waiting validators really start unstaking
+		if fl >= 1 {
+			bl = 13 + r.Intn(*blocks-8) // longer than the signing window (10): downtime jailing can happen
 		}
 		d := filepath.Join(base, fmt.Sprintf("h%d", hs))
 		os.RemoveAll(d)
